@@ -19,7 +19,7 @@ import (
 
 func init() {
 	seqChecks["c14h"] = &seqCheck{run: runC14h, replay: replayC14h,
-		rule: "every mutation history of <=3 (4 thorough) operations over the C13 value set, served through store.QueryHandler on a real Service: an ordinary collection resource, a query resource and a query resource with a path parameter + AffectedResources (also with one affected resource that the RequestHandler refuses, named first or last); a reference client holding the result of queries {'', k, l} follows system.reset (re-fetch) and query events (query request, apply events or replace by the new result) and must then equal a fresh get whenever the reference result changed; distinct = distinct (history, kind, message list)"}
+		rule: "every mutation history of <=3 (4 thorough) operations over the C13 value set, served through store.QueryHandler on a real Service: an ordinary collection resource, a query resource and a query resource with a path parameter + AffectedResources (also with one affected resource that the RequestHandler refuses, named first or last) and a query resource with a path parameter + AffectedResources whose normalised query is the same for every resource; a reference client holding the result of queries {'', k, l} follows system.reset (re-fetch) and query events (query request, apply events or replace by the new result) and must then equal a fresh get whenever the reference result changed; distinct = distinct (history, kind, message list)"}
 }
 
 // the reference client of one (resource, query)
@@ -123,6 +123,33 @@ func c14hRun(db *badger.DB, kind string, ops []c13Op, emit func(string)) string 
 			if kind != "param" {
 				clients = clients[1:]
 			}
+		case "qparam":
+			// a query resource whose path parameter feeds the store query while the normalised query is the same
+			// for every resource; AffectedResources names t.qby.x (matches nothing) first, then the resources of
+			// the old and new key: what one affected resource is told may not be reused for another one.
+			s.Handle("qby.$p", res.Collection, store.QueryHandler{QueryStore: qs, Transformer: tr,
+				QueryRequestHandler: func(rname string, pp map[string]string, q url.Values) (url.Values, string, error) {
+					return url.Values{"prefix": {pp["p"]}}, "all=1", nil
+				},
+				AffectedResources: func(p res.Pattern, qc store.QueryChange) []string {
+					seen := map[string]bool{}
+					out := []string{string(p.ReplaceTag("p", "x"))}
+					for _, v := range []interface{}{qc.Before(), qc.After()} {
+						if v == nil {
+							continue
+						}
+						k := string(c13Key("i", v.(map[string]interface{})))
+						for i := 1; i <= len(k); i++ {
+							rid := string(p.ReplaceTag("p", k[:i]))
+							if !seen[rid] {
+								seen[rid] = true
+								out = append(out, rid)
+							}
+						}
+					}
+					return out
+				}})
+			clients = []*c14Client{{rid: "t.qby.x", query: "all=1"}, {rid: "t.qby.k", query: "all=1"}, {rid: "t.qby.l", query: "all=1"}, {rid: "t.qby.ka", query: "all=1"}}
 		}
 		var subjects []string
 		conn.OnPub = func(m envnats.Msg) {
@@ -248,7 +275,7 @@ func runC14h(c *seqCtx) {
 			return
 		}
 		if len(ops) > 0 && c.Mine() {
-			for _, kind := range []string{"ordinary", "query", "param", "paramfailA", "paramfailB"} {
+			for _, kind := range []string{"ordinary", "query", "param", "paramfailA", "paramfailB", "qparam"} {
 				in := kind + "|" + opsString(ops)
 				sig := c14hRun(db, kind, ops, func(desc string) { c.Fail("C14", desc+" ["+in+"]", in) })
 				c.Eval(in + "=>" + sig)
